@@ -847,7 +847,11 @@ func (vc *VC) heapTypingAxioms(st *State, comp string) {
 		body = func(x Term) Term { return and(app("<=", bigNum(lo), x), app("<=", x, bigNum(hi))) }
 	case "len":
 		capComp := strings.TrimSuffix(comp, ".len") + ".cap"
-		if hc, ok := st.heap[capComp]; ok && meta.kind != LElem {
+		if hc, ok := st.heap[capComp]; ok && meta.kind == LGlobal {
+			vc.axiom(and(app("<=", "0", h), app("<=", h, hc)))
+			return
+		}
+		if hc, ok := st.heap[capComp]; ok && (meta.kind == LField || meta.kind == LDeref) {
 			vc.axiom(fmt.Sprintf("(forall ((o Int)) (! (and (<= 0 (select %s o)) (<= (select %s o) (select %s o))) :pattern ((select %s o))))", h, h, hc, h))
 			return
 		}
@@ -862,6 +866,8 @@ func (vc *VC) heapTypingAxioms(st *State, comp string) {
 		vc.axiom(fmt.Sprintf("(forall ((o Int)) (! %s :pattern ((select %s o))))", body(sel(h, "o")), h))
 	case LElem:
 		vc.axiom(fmt.Sprintf("(forall ((a Int) (i Int)) (! %s :pattern ((select (select %s a) i))))", body(sel(sel(h, "a"), "i")), h))
+	case LGlobal:
+		vc.axiom(body(h))
 	}
 }
 
